@@ -279,6 +279,13 @@ func solverParallelism() int {
 	return n
 }
 
+// SolveOne runs only the first solver once (used for vacuity probes).
+func SolveOne(script string, timeout time.Duration) SolverResult {
+	solverSem <- struct{}{}
+	defer func() { <-solverSem }()
+	return runOne(context.Background(), solvers[0], script+"\n(check-sat)\n", timeout)
+}
+
 // Solve runs the portfolio: first z3-new with a short budget, then all three raced.
 func Solve(script string, timeout time.Duration, wantModel bool) SolverResult {
 	solverSem <- struct{}{}
